@@ -111,6 +111,7 @@ func runC01(r *Run) {
 	checkNodeLocalConfig(r, "R8", sc)
 	r.Rule("R9", "DET.unordered-keys: the result of maps.Keys/maps.Values in S∪K must be passed to a sort function in the same function")
 	detMapsKeys(r, sc, inScope)
+	runDetControls(r)
 	_ = P
 }
 
